@@ -347,6 +347,11 @@ class C10(F.Check):
                             problems += ref_http.check_request(req, host, port, resource, headers, protocols, compress, expect_key=key)
                             if req.trailing:
                                 problems.append('bytes after the request terminator: %r' % req.trailing[:20])
+                            # a header configured on another object of this process must not travel with this one's request
+                            for menu in header_menus:
+                                for (n, v) in menu:
+                                    if (n, v) not in headers and v in ref_http.get(req, n.lower()):
+                                        problems.append('foreign header %r: %r was configured on a different WebSocket object' % (n, v))
                             if url.lower().startswith('wss') != bool(run.world.conns and run.world.conns[0].tls):
                                 problems.append('TLS used=%r for %s' % (run.world.conns[0].tls, url))
                             peer = run.world.conns[0].peer if run.world.conns else None
